@@ -55,6 +55,7 @@ FIXED = [
  ("C14", "fix: disk engine: clearing or creating table t destroyed", "disk engine: tables t and t.deleted: DropRowRange(all) or CreateTable on t removes the directory t.deleted, which is the data of the other table (its rows are gone, at once or after a restart); CreateTable t.table.proto renames away and deletes the file that holds the definition of t (also C08) (pointed out by two sixth-wave sub-agents; reproduced after both ids were added to the C14 universe)"),
  ("C05", "fix: an invalid row filter or predicate was accepted", "ReadRows with a filter holding an invalid node that no stored row reaches (value_regex_filter \"(\" behind a condition whose predicate lets nothing through, any invalid filter on an empty table) ends with OK; CheckAndMutateRow with an invalid predicate on an absent row, or behind a short-circuiting parent, applies a branch (also C12) (pointed out by a sixth-wave sub-agent; the checks had tolerated it as 'lazy validation' - the statements say rejected, never ignored - and demand the rejection since the repair)"),
  ("C16", "fix: a garbage-collection pass could start on a table that a client was still scanning", "a table idle for hours, a client begins a scan that spans several response messages; a non-forced pass attempted between two messages of the scan runs and collects cells - ReadRows stamped the table's activity only when it returned (lead from a sixth-wave sub-agent reading the code; reproduced by the new C16 sub-workload 'a pass is attempted while a scan is in progress', run 2 of the quick tier)"),
+ ("C20", "fix: ReadRows with an empty range such as (k, k)", "leveldb engines: ReadRows with the row range (k, k) (open start, open end) where row k is so large, or rewritten so often, that it has an engine table file to itself: the range is normalised to start k\\x00 > end k and goleveldb panics slicing its file index (slice bounds out of range) - the process dies under gRPC (also C03) (found by a seventh-wave sub-agent looking for violations in the unchanged code; reproduced after the large-table mixes gained rows of 2.5 MB and degenerate ranges around them)"),
  ("C20", "fix: a compose request with a null element", "POST .../compose with the body {\"sourceObjects\":[null]} -> nil dereference (pointed out by a sixth-wave sub-agent; reproduced after JSON null elements were added to the perturbed bodies)"),
  ("C20", "fix: an upload or patch racing the deletion", "memory store: an upload (or metadata patch) into a bucket that a concurrent DELETE of the bucket removes between the store's two look-ups -> nil dereference in memstore.Add / UpdateMeta (pointed out by a sixth-wave sub-agent; reproduced by the concurrent GCS mix after it gained a bucket that is deleted and re-created, hook 8f90ffc)"),
  ("C20", "fix: CreateTable with a table id the disk engine", "disk engine: CreateTable with a table id of 300 bytes (or one holding a NUL byte) panics in newDiskDb with the server lock held (pointed out by a sixth-wave sub-agent; reproduced after such ids were added to the perturbed admin requests)"),
